@@ -298,3 +298,19 @@ CHECKS["C20"]["runs"].append({"variant": "opts-fuzz"})
 CHECKS["C20"]["rule"] += (" Additionally a libFuzzer target (clang -fsanitize=fuzzer,address,bounds) decodes coverage-guided bytes into the same checks (environment values for all options, format seeds "
     "and buffer sizes, strlcpy/strlcat triples, JSON buffer sizes, option API values) with the semantic oracle inside the target; its executions are added to evaluations and the inputs that added "
     "coverage to the corpus are counted as distinct non-trivial cases; a crash artifact is the replay file.")
+
+# ---- generator elements added while strengthening against the seeded changes (batches 2-5); appended to the rule texts
+CHECKS["C01"]["rule"] += (" Scenarios drawn besides the random steps: a size class shared by over-aligned and plain blocks over several pages (holes, refill, frees of the aligned blocks); "
+    "a queue cycle (page A full, page B head, A back behind B, B exhausted, emptied and released, another class takes a fresh page, the class again); one time in four abandoned_reclaim_on_free=1.")
+CHECKS["C13"]["rule"] += (" One time in 25 an arena with more than 64 blocks (arena_reserve=4GiB) holding 66-72 sparsely touched huge blocks whose highest ones are freed and purged.")
+CHECKS["C15"]["rule"] += (" Adoption-pressure scenario: a helper thread with an arena-bound heap exits with live blocks, optionally one of them is freed by the main thread, an unbound heap takes 100-190 "
+    "blocks of 1 MiB and then the size class left behind; one time in three abandoned_reclaim_on_free=1.")
+CHECKS["C17"]["rule"] += (" Double frees also with the first free made by another thread; forged links also with a target chosen outside the area (white-box input helper, black-box oracle); overflow also "
+    "on blocks left behind by ended threads (tiny-block scenario, one time in three abandoned_reclaim_on_free=1).")
+CHECKS["C18"]["rule"] += (" Histories have 1-3 free/delay/activity/expect cycles; freed segments are sometimes taken again at once and kept across the expiry; one time in five everything lives in memory "
+    "handed over with mi_manage_os_memory_ex (committed or not) through an arena-bound heap.")
+CHECKS["C08"]["rule"] += (" Keeper programs may start with the only block of the only page freed remotely, drain the delayed list through >= 100 generic allocations of another size (never collecting), "
+    "delete their heap half-way (absorbed pages) or run with target_segments_per_thread; producer/consumer runs end with the reuse probe and also use about one page plus one block in flight.")
+CHECKS["C11"]["rule"] += (" One time in four the thread's own segments are force-abandoned (target_segments_per_thread, mi_collect_reduce). The creep clause is strict for memory outside arenas; for arena "
+    "reservations growth in two or more repetitions after the warm-up is the violation (known finding F18: a single late step).")
+CHECKS["C12"]["rule"] += (" Helper threads sometimes leave a huge block (own segment) behind; one time in four abandoned_reclaim_on_free=1.")
